@@ -169,7 +169,7 @@ func c17Outbound(c *vlib.Ctx) {
 		w.WriteHeader(204)
 	}))
 	defer srv.Close()
-	n := c.N(3000, 60000)
+	n := c.N(3000, 240000)
 	for i := 0; i < n; i++ {
 		r := vlib.Derive(c.Seed, "C17out", i)
 		vs := genVersions(r, dir, fmt.Sprintf("VERIF_C17_%d", i%50))
@@ -317,7 +317,7 @@ func bytesEq(a, b []byte) bool { return string(a) == string(b) }
 // signed timestamp (through the production loadAuth wiring).
 func c17Inbound(c *vlib.Ctx) {
 	dir := c.Scratch()
-	n := c.N(400, 8000)
+	n := c.N(400, 30000)
 	for i := 0; i < n; i++ {
 		r := vlib.Derive(c.Seed, "C17in", i)
 		vs := genVersions(r, dir, fmt.Sprintf("VERIF_C17I_%d", i%50))
